@@ -255,6 +255,10 @@ def gen_pass_rule(rng, stage, values, direction="noback", allow_lookback=True, r
         items.append("[")
     if br and j == len(groups):
         items.append("]")
+    if allow_lookback and rng.chance(0.2):
+        # a look-back in the middle, behind the brackets or at the end: the match may end before the
+        # replaced range (legal: '[$d5]_5 "s"' in tests/yaml/multipass-forward.yaml)
+        items.insert(rng.range(1, len(items)), ("look", rng.range(1, 3)))
     a = rng.below(10)
     if a < 6:
         act = ("lit", [rng.choice(values) for _ in range(rng.range(1, 3))])
